@@ -1,6 +1,11 @@
 package main
 
+import "os"
+
 func init() {
+	if os.Getenv("VERIF_EXPLORE") != "" {
+		register(&Property{ID: "XPL", Explanation: "exploration only", NotDecided: "-", Rules: []func(*World){rwExplore}})
+	}
 	register(&Property{
 		ID:          "C05",
 		Explanation: "RA over the stable compiler's scheduler and the shared symbol table: executor.results and result.blockedOn are touched only under their mutex; executor/result fields read without locks are never assigned after construction; descriptorProtoIsCustom is written only inside its sync.Once. RB: result.res/err are written only in fail/complete (write; close(ready)) and every other read is dominated by a receive from the same result's ready channel. RC5: Compile returns descriptors indexed by request position only after the handler verdict. RC1/RC2/RC8 (shared with C06): the blocked-on publication and cycle-check ordering in task.asFile, whose violation makes the outcome (cycle error vs. hang) depend on the schedule and on the order of the requested files. RC10: requested files are registered in one critical section. RI/RJ: no map-order-, clock- or random-dependent value is produced in functions reachable from Compiler.Compile except through the listed order-insensitive idioms. RA4: insert-if-absent writes of the symbol table happen in the critical section that validated them.",
